@@ -15,6 +15,8 @@ E2: bounded exhaustive input enumeration, five families.
   * ropts  : written files x every read option (model incl. out of range, altloc, extra_fields
              subsets, use_author_fields, include_bonds).
   * nonuniq: residues that are not uniquely identifiable: InvalidFileError or the exact bonds.
+Every written file with bonds is also inspected row by row (struct_conn / chem_comp_bond rows must be
+true statements about the input in mmCIF dictionary terms), see written_rows_check().
 """
 
 import io
